@@ -547,6 +547,31 @@ func (p *Prog) openGuardedAt(at *ssa.Call, arg ssa.Value, depth int) (string, st
 		if !guarded(at.Block(), []Edge{{b, succ}}) {
 			continue
 		}
+		// the flag may be a parameter of a private helper: judged at every call site
+		if prm, isPrm := cond.(*ssa.Parameter); isPrm && fn.Parent() == nil && (fn.Object() == nil || !fn.Object().Exported()) {
+			idx := -1
+			for i, q := range fn.Params {
+				if q == prm {
+					idx = i
+				}
+			}
+			sites := p.callersOf(fn)
+			all := idx >= 0 && len(sites) > 0
+			for _, s := range sites {
+				if idx < 0 || idx >= len(s.Common().Args) {
+					all = false
+					continue
+				}
+				if ok3, w := p.regularFlag(s.Common().Args[idx], s.Block(), map[ssa.Value]bool{}); !ok3 {
+					all = false
+					why = w
+				}
+			}
+			if all {
+				return "the body flag is a parameter, and at every call site every way it can be true carries an IsRegular() test", ""
+			}
+			continue
+		}
 		if _, isPhi := cond.(*ssa.Phi); !isPhi {
 			if _, isEx := cond.(*ssa.Extract); !isEx {
 				continue
